@@ -156,7 +156,7 @@ func genReply(r *rand.Rand, g *gen, op kmip.Enum, sh replyShape) []byte {
 		it.ResultStatus = kmip.Enum(sh.status)
 		if it.ResultStatus != 0 || r.Intn(6) == 0 {
 			it.ResultReason = kmip.Enum(1 + r.Intn(24))
-			it.ResultMessage = "failed: " + string(g.bytesv())
+			it.ResultMessage = "failed: " + g.msgv()
 		}
 		if sh.payload {
 			if tn, ok := specResponsePayload[it.Operation]; ok {
